@@ -13,9 +13,9 @@
 //! route-level entry point alone (`clear + goal.accept_route_state` of a copy of that single route) already yields the
 //! value the full recompute yields; otherwise it is *solution-dependent* (today: shared reload resource availability,
 //! which the route-level entry point only sets to a "blocked" sentinel; until fix 7a2d83a also the group tag, which only
-//! the solution-level entry point wrote). After an insertion route-local keys are compared with the single-route recompute, solution-
-//! dependent keys with the full recompute and only if every other route is fresh in its route-local keys (mid-operator
-//! other routes may legitimately be stale, see DESIGN.md) and the recompute did not touch any tour.
+//! the solution-level entry point wrote). After an insertion route-local keys are compared with the single-route
+//! recompute, solution-dependent keys with the full recompute and only if every other route is fresh in its route-local
+//! keys (mid-operator other routes may legitimately be stale, see DESIGN.md) and the recompute did not touch any tour.
 //!
 //! Signatures: `C05|<handover|insertion>|key=<last segment of the key type>|<cached-but-not-recomputed|
 //! recomputed-but-not-cached|value-differs>[|job-accounting-broken]`, `C05|handover|fitness-differs|with=solution:<keys>`,
